@@ -65,6 +65,10 @@ Dog == Ref("VarDog")  Cat == Ref("VarCat")  Bird == Ref("VarBird")
 \* middle / last variant), several aliases for one variant
 OneOfs == { OneOf(<< Dog, Cat >>, d, << >>) : d \in {"", "kind"} }
           \cup { OneOf(<< Dog, Cat, Ref("PoolB") >>, "", << >>) }
+          \* variants sharing a property that sorts before the property on which the earlier variant fails
+          \* (Memo {author, subject*} / Letter {author, recipient*}; Circle {kind*, radius*} / Square {kind*, side*})
+          \cup { OneOf(<< Ref("VarMemo"), Ref("VarLetter") >>, "", << >>), OneOf(<< Ref("VarLetter"), Ref("VarMemo") >>, "", << >>) }
+          \cup { OneOf(<< Ref("VarCircle"), Ref("VarSquare") >>, d, << >>) : d \in {"", "kind"} }
           \cup { OneOf(<< Dog, Cat >>, "kind", << DM("dog", "VarDog"), DM("cat", "VarCat"), DM("kitten", "VarCat") >>) }
           \cup { OneOf(<< Dog, Cat, Bird >>, "kind", dm) : dm \in { << >>, << DM("doggo", "VarDog") >>, << DM("kitty", "VarCat") >>, << DM("birdie", "VarBird") >>,
                                                                    << DM("doggo", "VarDog"), DM("birdie", "VarBird") >>,
